@@ -13,3 +13,8 @@ Fixpoint mfor {A} (l : list A) (f : A -> M unit) : M unit :=
   | [] => ret tt
   | x :: rest => f x ;;; mfor rest f
   end.
+
+(* usize subtraction of two numbers obtained from addresses: debug builds panic on underflow, release builds wrap *)
+Definition usub (dbg : bool) (x y : Z) : M Z :=
+  if Z.leb y x then ret (x - y)%Z
+  else if dbg then panic P_OVERFLOW else ret (x - y + 18446744073709551616)%Z.
